@@ -28,8 +28,9 @@ CHECKS = {
  "C20": dict(cat="model_checking", design="§4 C20",
    text="spec/Health.tla: counter with hysteresis, staleness in half-intervals, disable flag, loop life cycle; TLC checks Counter, "
         "HealthyIff (the property as stated, over trailing failures), OneSuccessRestores, NoCheckAfterExit and closed ~> loop exited "
-        "(WF), 7 negative controls. Binding: every action sequence of length 6 for N in 1..3 x disabled (and two-token/timeout "
-        "sequences) is replayed on a real server.Server with scripted fake tokens; after each step GET /health through the real "
+        "(WF), a reference clock (time since the last completed check, failed or not: Clock), 9 negative controls. Binding: every "
+        "action sequence of length 6 for N in 1..3 x disabled, of length 8 for N = 2 with failing checks between long quiet stretches "
+        "(and two-token/timeout sequences) is replayed on a real server.Server with scripted fake tokens; after each step GET /health through the real "
         "handler and the counter must equal the specification; after Close the loop goroutine must be gone; a hook-free real-time "
         "run checks that the loop itself performs the checks and stops (no pings, no CPU) after Close.",
    note="Trusted: verif hooks VerifHealthCheckOnce/VerifAgeLastPing (time is simulated by ageing the stamp), goroutine "
@@ -74,7 +75,8 @@ CHECKS = {
         "rotation, expiry, shutdown at any moment): Isolation, AuditComplete, RecordFaithful, Drain, NoShutdownCasualty, "
         "CacheKeySound, liveness; TokenCache (2 clients at critical-section grain) and AuditLog (3 appenders); negative controls. "
         "Binding: the harness+server built with the race detector; cold-start bursts, mixed concurrent load where every client "
-        "verifies its own response (leaf certificate, digest, body), daemon.Close() while slow requests are in flight; traces "
+        "verifies its own response (leaf certificate, digest, body), one run per signature type in which a scheduler gate holds every "
+        "8th request between its signature and its response while 16 others are signed, daemon.Close() while slow requests are in flight; traces "
         "validated by SignServer_Trace, TokenCache_Trace (per cache instance) and Relic_Trace.",
    note="Trusted: the Go race detector (sees only schedules that occurred), verif hooks under the cache mutex, fake tokens that "
         "refuse to work once closed. net/http and runtime internals are not modelled.",
@@ -180,9 +182,11 @@ CHECKS = {
  "C16": dict(cat="model_checking", design="§4 C16",
    text="spec/Cms.tla enumerates third-party SignedData shapes (15552) x the operations relic performs on parsed values (RoundTrip, "
         "Embed, EmbedDetach, Resign) and records which parts lib/pkcs7 captures raw and which it re-encodes; SignedPartsSame, "
-        "MandatoryAttrsOnce and RefuseOnlyWhenJustified are checked by TLC (5 negative controls). Binding: each behaviour is concretised "
+        "MandatoryAttrsOnce, RefuseOnlyWhenJustified and DigestedAsEmitted (incl. signed-attribute sets of exactly 127..129 and 255..257 "
+        "bytes, the DER length-form boundaries) are checked by TLC (7 negative controls). Binding: each behaviour is concretised "
         "by a harness TLV encoder, run through the real Unmarshal/Marshal/Detach, ParseResponse/TimestampAndMarshal and catalog signer, "
-        "and taken apart by a harness TLV walker; each part must be what the model predicts; signatures are re-verified (own code, openssl).",
+        "and taken apart by a harness TLV walker; each part must be what the model predicts; signatures are re-verified (own code, openssl); "
+        "signer infos built by relic's own builder with every attribute length from 80 to 300 bytes must verify over the attributes as emitted.",
    note="Encode/decode fidelity: the model is a shape x operation enumerator with a preservation rule table. Legacy Microsoft "
         "timestamp responses and subjectKeyIdentifier signer infos are not generated.",
    technique="TLA+ shape/operation enumeration by TLC; behaviours replayed on the real pkcs7/pkcs9 code with an independent TLV walker and openssl",
